@@ -36,15 +36,17 @@ type violationPanic struct{ v *Violation }
 
 // Ctx is handed to an engine for one simulated run.
 type Ctx struct {
-	T       *Tape
-	Prop    string
-	Tier    string
-	Mode    string // engine-specific sub-mode
-	Seed    uint64
-	Run     int
-	Replay  bool
-	Bubble  bool
-	Verbose bool
+	DeferCross   bool // cross-property oracle hits are recorded, not raised, until FlushCross
+	pendingCross bool
+	T            *Tape
+	Prop         string
+	Tier         string
+	Mode         string // engine-specific sub-mode
+	Seed         uint64
+	Run          int
+	Replay       bool
+	Bubble       bool
+	Verbose      bool
 
 	Trace      []string
 	traceDrop  int
@@ -121,6 +123,11 @@ func (c *Ctx) ReportFor(prop, oracle, sig, detail string) {
 		}
 		c.Probes["cross:"+prop+"/"+oracle]++
 		c.Logf("cross-property oracle %s/%s/%s fired (not claimed by this check): %s", prop, oracle, sig, detail)
+		if c.DeferCross {
+			// the caller is in the middle of a group of oracles: let the run's own property have its say first
+			c.pendingCross = true
+			return
+		}
 		panic(crossAbort{})
 	}
 	for i := range c.Known {
@@ -169,4 +176,14 @@ func IsSimPanic(r any) bool {
 		return true
 	}
 	return false
+}
+
+// FlushCross ends a group of oracles evaluated with DeferCross: if another property's oracle fired
+// in the group (and the run's own did not raise), the run is abandoned now.
+func (c *Ctx) FlushCross() {
+	c.DeferCross = false
+	if c.pendingCross {
+		c.pendingCross = false
+		panic(crossAbort{})
+	}
 }
